@@ -49,6 +49,8 @@ def install(R):
 
     def iter_(eng, fr, x):
         """the sequence a for-loop over x visits"""
+        if x.k == "py":
+            x = mk_V(eng.as_V(x))       # a data attribute of a dynamic value (dataset.dims): opaque collection
         if x.k == "V" and not ((x.meta or {}).get("seq") or (x.meta or {}).get("coll")):
             sp = eng.iterspec(x, fr)
             if sp.desc == "seq":
@@ -64,7 +66,16 @@ def install(R):
     S["slen"] = seq_len
 
     def seq_get(eng, fr, x, i):
-        return mk_V(T.sget(eng.seq_V(x, fr), eng.as_int(i, fr)))
+        xv, iv = eng.seq_V(x, fr), z3.simplify(eng.as_int(i, fr))
+        if z3.is_int_value(iv):
+            # literal tuple display snoc(...snoc(sempty, a0)..., an): its items are known syntactically
+            items, t = [], xv
+            while z3.is_app(t) and t.decl().name() == "snoc":
+                items.append(t.arg(1))
+                t = t.arg(0)
+            if z3.eq(t, T.sempty) and 0 <= iv.as_long() < len(items):
+                return mk_V(items[::-1][iv.as_long()])
+        return mk_V(T.sget(xv, iv))
     S["sget"] = seq_get
 
     def snoc_(eng, fr, s, x):
